@@ -73,7 +73,7 @@ CLAIMED["C05"] = dict(
          "(contexts_restore, induction over bracketed programs); the single raw set/unset slot is proved NOT to nest "
          "(raw_slot_clobbered, the mechanism of the fixed Aggregate.build defect). Tied to the code by the unit-pair x accessor "
          "matrix (8 accessors, exact rational conversion from the code's own factors) and by random context programs with "
-         "exceptions, unknown units, raw set/unset and 11 library calls, each of which must leave the caller's units unchanged.",
+         "exceptions, unknown units, raw set/unset and 11 library calls, each of which must leave the caller's units unchanged. A block also restores units, backup stack and nesting counter whatever hand switches (set_current_units) and nested blocks its body contains, also when it asked for the units already active (block_restores_despite_hand_switches).",
     note="Lean kernel + standard axioms; extractor + harness (ours); numeric factor values are the code's (symbolic in the "
          "theorems); 'no library call changes units' is decided by the oracle over the calls exercised, not proved for all calls.",
     technique="Lean 4 field identities + induction over bracketed context programs + exact state correspondence",
@@ -373,7 +373,7 @@ CLAIMED["C12"] = dict(
          "eigenvector matrix the combination g_ee + g_ff - 2 g_fe used by get_transition_width / get_transition_dephasing is PROVED "
          "to be the value of the molecule that is being excited (uncoupled_first, uncoupled_second). Partial (measured on the "
          "implementation, not proved): rotation, scaling, total = R + NR and the additivity of the SPECTRA themselves (pathway "
-         "generation and the cancellation of cross peaks against excited-state absorption are not modelled).",
+         "generation and the cancellation of cross peaks against excited-state absorption are not modelled). The prefactor is linear in each single polarisation vector (pref_scale_one_field, pref_add_one_field, pref_scale_all_fields): polarisation four-tuples need not be unit vectors.",
     note="Lean kernel + standard axioms; no hypothesis about the Haar measure is left: an averaging functional with the listed "
          "properties is constructed (a finite rational 4-design) and every such functional gives the same value; pathway generation / "
          "line shapes observed only.",
